@@ -393,9 +393,19 @@ def visibility_case():
         sta = Sta()
         handed = []
 
+        made = []
+
         class P:
-            def __init__(self, phi, event=None):
-                self.phi, self.event, self.frame, self.form = phi, event, None, None
+            def __init__(self, phi, event=None, frame=None, form=None):
+                self.phi, self.event, self.frame, self.form = phi, event, frame, form
+                self.origin = self
+                if frame is None and form is None:
+                    made.append(self)
+
+            def copy(self, frame=None, form=None):
+                q = P(self.phi, self.event, frame if frame is not None else self.frame, form if form is not None else self.form)
+                q.origin = self.origin
+                return q
 
         class Orb:
             def iter(self, **kw):
@@ -416,10 +426,13 @@ def visibility_case():
         second = list(sta.visibility(Orb(), events=True, listeners=user))
         out = {}
         for k, key in enumerate(("phi0", "phi1", "phi2")):
-            present = [p for p in first if p.phi is v[key]]
+            present = [p for p in first if p.origin.phi is v[key]]
             out[f"kept{k}"] = len(present)
         evp = [p for p in first if p.event is not None]
         lab = all(p.frame is sta and p.form == "spherical" for p in first)
+        # the samples handed over by the propagator are also what its listeners keep as `prev`: they must not be changed
+        untouched = all(p.frame is None and p.form is None for p in made)
+        out["samples_left_untouched"] = Holds(SB(z3.BoolVal(bool(untouched))) if env.symbolic else bool(untouched))
         out.update({"event_kept": len(evp), "moved_to_station_frame": Holds(SB(z3.BoolVal(bool(lab))) if env.symbolic else bool(lab)),
                     "user_list_len_after_1": n_user_1, "user_list_len_after_2": len(user),
                     "listeners_handed_1": len(handed[0]), "listeners_handed_2": len(handed[1]),
@@ -430,6 +443,7 @@ def visibility_case():
         r = {}
         for k, key in enumerate(("phi0", "phi1", "phi2")):
             r[f"kept{k}"] = 1 if (v[key] >= 0) else 0
+        r["samples_left_untouched"] = None
         r.update({"event_kept": 1, "moved_to_station_frame": None, "user_list_len_after_1": 1, "user_list_len_after_2": 1,
                   "listeners_handed_1": 3, "listeners_handed_2": 3, "second_stream_len": 0})
         return r
@@ -439,10 +453,84 @@ def visibility_case():
                      "the station frame / spherical form; L is left as given and a second call hands the propagator the same listeners")
 
 
+def light_case(kind):
+    """LightListener geometry against the conical shadow model: behind the body (x_sun . x_sat < 0) the satellite is in penumbra
+    iff its distance to the shadow axis is <= (X_p + h) tan(a_p), a_p = asin((R_sun + R_body)/d), X_p = R_body / sin(a_p), and in
+    umbra iff it is also <= (X_u - h) tan(a_u), a_u = asin((R_sun - R_body)/d), X_u = R_body / sin(a_u); h = distance behind the
+    body along the axis.  The satellite is placed in the plane z = 0 with the sun on the +x axis (the model is symmetric about
+    the axis).  The listener's value is negative exactly inside the cone of its type."""
+    ins = [("d", "pos"), ("Rs", "pos"), ("Re", "pos"), ("px", "real"), ("py", "real")]
+
+    def pre(v):
+        return [v["Rs"] > v["Re"], v["d"] > v["Rs"] + v["Re"], v["px"] * v["px"] + v["py"] * v["py"] > v["Re"] * v["Re"]]
+
+    def run(env, v):
+        ls = env.mod("beyond.propagators.listeners") if env.symbolic else importlib.import_module("beyond.propagators.listeners")
+        sol = importlib.import_module("beyond.env.solarsystem")
+        from symx.stubs import FrameStub, carrier
+        frame = FrameStub("EME2000", None, r=v["Re"])
+
+        def mk(vals):
+            if env.symbolic:
+                return carrier(list(vals), date=None, frame=frame, form="cartesian")
+            a = np.array(vals, dtype=float).view(_ConcOrb)
+            a.frame, a.date = frame, None
+            return a
+
+        class Sun:
+            r = v["Rs"]
+
+            def propagate(self, date):
+                return mk([v["d"], 0, 0, 0, 0, 0])
+        saved = sol.get_body
+        sol.get_body = lambda name: Sun()
+        try:
+            val_ = ls.LightListener(kind)(mk([v["px"], v["py"], 0, 0, 0, 0]))
+        finally:
+            sol.get_body = saved
+        inside = bool(val_ < 0) if not env.symbolic else (val_ < 0)
+        # reference cone
+        h = -v["px"]
+        vert = abs(v["py"])
+        sp, su = (v["Rs"] + v["Re"]) / v["d"], (v["Rs"] - v["Re"]) / v["d"]
+        tp, tu = sp / env.sqrt(1 - sp * sp), su / env.sqrt(1 - su * su)
+        Xp, Xu = v["Re"] / sp, v["Re"] / su
+        if env.symbolic:
+            night = v["px"] < 0
+            in_pen = night & (vert <= (Xp + h) * tp)
+            in_umb = in_pen & (vert <= (Xu - h) * tu)
+            want = in_pen if kind == "penumbra" else in_umb
+            got = SB(z3.BoolVal(bool(inside)))
+            return {"inside_cone": Holds((want & got) | (~want & ~got))}
+        night = v["px"] < 0
+        in_pen = night and vert <= (Xp + h) * tp
+        in_umb = in_pen and vert <= (Xu - h) * tu
+        want = in_pen if kind == "penumbra" else in_umb
+        return {"inside_cone": Holds(bool(want) == bool(inside))}
+
+    def ref(env, v, out):
+        return {"inside_cone": None}
+    AU, RS, RE = 1.496e11, 6.957e8, 6.378e6
+    return Case(f"light/{kind}", ins, run, ref, pre=pre, timeout=120, maxpaths=64,
+                signature=f"LightListener {kind} cone",
+                extra_points=[{"d": AU, "Rs": RS, "Re": RE, "px": -4.2e7, "py": 6.5767e6}, {"d": AU, "Rs": RS, "Re": RE, "px": -7e6, "py": 6.4108e6},
+                              {"d": AU, "Rs": RS, "Re": RE, "px": -4.2e7, "py": 6.18e6}],
+                desc=f"LightListener({kind}) is negative exactly when the satellite is inside the {kind} cone of the conical shadow model")
+
+
+class _ConcOrb(np.ndarray):
+    """float state with the two attributes LightListener reads (concrete replay of light/*)"""
+    def copy(self, form=None, frame=None):
+        new = np.ndarray.copy(self).view(_ConcOrb)
+        new.frame, new.date = self.frame, self.date
+        return new
+
+
 def all_cases(tier):
     b = bounds(tier)
     cs = [listen_case(n) for n in range(1, b["listeners"] + 1)]
-    cs += [bisect_case(b["bisect_decisions"]), bisect_step_case(), anomaly_case(), labels_case(), stream_case(), visibility_case()]
+    cs += [bisect_case(b["bisect_decisions"]), bisect_step_case(), anomaly_case(), labels_case(), stream_case(), visibility_case(), light_case("umbra"),
+           light_case("penumbra")]
     return cs
 
 
@@ -455,7 +543,7 @@ def replay(ob, model):
     # the same scenario with a step function realising the model's signs
     rp = ob.get("replay") or {}
     name = rp.get("case", "")
-    if name.startswith("visibility"):
+    if name.startswith("visibility") or name.startswith("light"):
         return replay_cases(all_cases("thorough"), ob, model)
     try:
         return _replay_concrete(name, rp.get("component"), model)
